@@ -465,7 +465,10 @@ static unsigned save_to_argbuf(void *argbuf, struct list_head *args_spec,
 				char buf[32];
 
 				if (!check_mem_region(ctx, (unsigned long)str)) {
+					/* libc may use the traced function's xmm registers */
+					mcount_save_arch_context(ctx->arch);
 					len = snprintf(buf, sizeof(buf), "<%p>", str);
+					mcount_restore_arch_context(ctx->arch);
 					str = buf;
 				}
 
@@ -537,7 +540,9 @@ void save_argument(struct mcount_thread_data *mtdp, struct mcount_ret_stack *rst
 
 	size = save_to_argbuf(argbuf, args_spec, &ctx);
 	if (size == -1U) {
+		mcount_save_arch_context(ctx.arch);
 		pr_warn("argument data is too big\n");
+		mcount_restore_arch_context(ctx.arch);
 		return;
 	}
 
